@@ -50,6 +50,8 @@ type c14Vec struct {
 	Ns    string   `json:"ns,omitempty"`    // lexical form of the endpoint element (spec: NsForms; "default" or "": as every base document)
 	Space string   `json:"space,omitempty"` // the namespace the model resolves the element's name to
 	Slice string   `json:"slice,omitempty"` // the endpoint slice the model derives the element is decoded into ("none": no field takes it)
+	At    string   `json:"at,omitempty"`    // form of the attribute under test (spec: AttrFormsAll; "single" or "": once, unprefixed)
+	Arrive string  `json:"arrives,omitempty"` // which of the written values the model derives to reach the field: "case" | "harmless"
 	Req   string   `json:"required,omitempty"`
 	Class string   `json:"class"`
 	Pred  struct {
@@ -786,6 +788,9 @@ type c14MetaDoc struct {
 	// documents of the other lexical forms (vector field ns): how many elements with the local name of the
 	// hostile one were written into the target descriptor (the hostile one included)
 	SameName int `json:"same_name,omitempty"`
+	// documents of the other attribute forms (vector field at): the case's (hostile) value; Raw is the value the
+	// model derives to reach the field - the same, or the harmless companion
+	Hostile string `json:"hostile,omitempty"`
 }
 
 // c14PickValue draws the attribute value and the binding of a metadata case.
@@ -916,7 +921,100 @@ func c14BuildMetaNs(v *c14Vec, rng *rand.Rand, n int64) c14MetaDoc {
 	return d
 }
 
+func c14SingleAttr(v *c14Vec) bool { return v.At == "" || v.At == "single" }
+
+// prefixes an attribute of a foreign namespace is written with (declared on the root or on the element itself)
+var c14AttrPrefixes = []string{"x", "xa", "ext", "md", "saml", "mdattr", "ns1"}
+
+// c14BuildMetaAttr: the document of a case whose Location / ResponseLocation attribute is not written once and
+// unprefixed (spec: AttrsWritten): next to, or instead of, the unprefixed attribute the start element carries an
+// attribute of the same local name in a foreign namespace (EndpointType allows anyAttribute ##other).  The
+// endpoint element is built with etree (CreateAttr keeps the order of creation); the frame is that of the base
+// documents.
+func c14BuildMetaAttr(v *c14Vec, rng *rand.Rand, n int64) c14MetaDoc {
+	d := c14MetaDoc{Entity: fmt.Sprintf("https://peer%d.example.com/metadata", n)}
+	c14PickValue(v, rng, &d)
+	d.Hostile = d.Raw
+	harmless := c14BenignLocs[rng.Intn(3)]
+	if v.Arrive == "harmless" {
+		// the model says this one reaches the field: a value no other element of the document carries
+		harmless = fmt.Sprintf("https://harmless%d.example.org/loc", n)
+		d.Raw = harmless
+	}
+	p, ns := c14AttrPrefixes[rng.Intn(len(c14AttrPrefixes))], c14ForeignNs[rng.Intn(len(c14ForeignNs))]
+	onSelf := rng.Intn(2) == 0
+	bindingLast := rng.Intn(2) == 0
+	el := etree.NewElement(v.Elem)
+	if onSelf {
+		el.CreateAttr("xmlns:"+p, ns)
+	}
+	if d.Binding != "\x00" && !bindingLast {
+		el.CreateAttr("Binding", d.Binding)
+	}
+	if v.Attr == "ResponseLocation" {
+		el.CreateAttr("Location", c14BenignLocs[0])
+	}
+	switch v.At {
+	case "plainThenForeign":
+		el.CreateAttr(v.Attr, harmless)
+		el.CreateAttr(p+":"+v.Attr, d.Hostile)
+	case "foreignThenPlain":
+		el.CreateAttr(p+":"+v.Attr, d.Hostile)
+		el.CreateAttr(v.Attr, harmless)
+	case "foreignOnly":
+		el.CreateAttr(p+":"+v.Attr, d.Hostile)
+	default:
+		return d // Doc stays empty: the caller breaks the check
+	}
+	if v.Attr == "Location" && rng.Intn(2) == 0 {
+		el.CreateAttr("ResponseLocation", c14BenignLocs[1])
+	}
+	if d.Binding != "\x00" && bindingLast {
+		el.CreateAttr("Binding", d.Binding)
+	}
+	if v.Kind == "IE" {
+		el.CreateAttr("index", "0")
+	}
+	ed := etree.NewDocument()
+	ed.SetRoot(el)
+	elText, err := ed.WriteToString()
+	if err != nil {
+		return d
+	}
+	var b strings.Builder
+	b.WriteString(`<EntityDescriptor xmlns="` + c14MdNs + `"`)
+	if !onSelf {
+		b.WriteString(` xmlns:` + p + `="` + c14XMLAttr(ns) + `"`)
+	}
+	b.WriteString(` entityID="` + d.Entity + `">`)
+	if v.Desc != "IDPSSODescriptor" {
+		b.WriteString(`<IDPSSODescriptor` + c14Proto + `><SingleSignOnService Binding="` + saml.HTTPRedirectBinding + `" Location="` + c14BenignLocs[2] + `"/></IDPSSODescriptor>`)
+	}
+	b.WriteString("<" + v.Desc + c14Proto + ">")
+	sib := c14ElementsOf[v.Desc]
+	benignSib := func() {
+		e := sib[rng.Intn(len(sib))]
+		b.WriteString(`<` + e + ` Binding="` + saml.HTTPPostBinding + `" Location="` + c14BenignLocs[rng.Intn(3)] + `" index="7"/>`)
+	}
+	// the element under test comes first more often than not: the destination getters return the first match
+	if rng.Intn(3) == 0 {
+		benignSib()
+	}
+	b.WriteString(elText)
+	if rng.Intn(2) == 0 {
+		benignSib()
+	}
+	b.WriteString("</" + v.Desc + ">")
+	b.WriteString(`</EntityDescriptor>`)
+	d.Doc = b.String()
+	d.Wrapped = `<EntitiesDescriptor xmlns="` + c14MdNs + `" Name="x">` + d.Doc + `</EntitiesDescriptor>`
+	return d
+}
+
 func c14BuildMeta(v *c14Vec, rng *rand.Rand, n int64) c14MetaDoc {
+	if !c14SingleAttr(v) {
+		return c14BuildMetaAttr(v, rng, n)
+	}
 	if !c14DefaultNs(v) {
 		return c14BuildMetaNs(v, rng, n)
 	}
@@ -1005,11 +1103,11 @@ func c14XMLLocations(doc string) ([]c14LocVal, error) {
 	return out, nil
 }
 
-// all: every way in; otherwise the cases of the other lexical forms (vector field ns) take the plain ways only
-// (xml.Unmarshal, samlsp.ParseMetadata, sp-sinks).
+// all: every way in; otherwise the cases of the other lexical forms (vector field ns) and of the other attribute
+// forms (vector field at) take the plain ways only (xml.Unmarshal, samlsp.ParseMetadata, sp-sinks).
 func c14ObserveMeta(shared *c14Server, v *c14Vec, d c14MetaDoc, all bool) []c14MetaObs {
 	var obs []c14MetaObs
-	all = all || c14DefaultNs(v)
+	all = all || (c14DefaultNs(v) && c14SingleAttr(v))
 	run := func(path string, f func() ([]c14LocVal, error)) {
 		if !all && path != "unmarshal" && path != "parsemetadata" && path != "sp-sinks" {
 			return
@@ -1201,6 +1299,9 @@ func c14MetaKey(v *c14Vec) string {
 	if !c14DefaultNs(v) {
 		k += ":ns=" + v.Ns
 	}
+	if !c14SingleAttr(v) {
+		k += ":at=" + v.At
+	}
 	return k
 }
 
@@ -1289,7 +1390,8 @@ func TestC14(t *testing.T) {
 		"(scheme class x, for http / https / mixed-case http(s), the shape of what follows: plain, not a URL - control characters, unbalanced bracket, bad port, bad escape, blank in host -, lenient, well-formed unusual) " +
 		"is built as a document and parsed by xml.Unmarshal (EntityDescriptor, EntitiesDescriptor), samlsp.ParseMetadata (plain, wrapped), a samlidp server (PUT /services, lookup, GET, SSO form) and, for IdP descriptors, " +
 		"handed to a ServiceProvider whose destination getters, redirect URLs, POST form actions and middleware Location header are collected; every Location/ResponseLocation found by reflection and every such destination " +
-		"must be blank or http(s) and free of control characters in front of its fragment; non-trivial = class MustAccept or MustReject"
+		"must be blank or http(s) and free of control characters in front of its fragment; the cases of the other attribute forms (a harmless unprefixed Location / ResponseLocation followed or preceded by one of the same local name in a foreign namespace " +
+		"that carries the hostile value, or that one alone) are written with etree and judged by the same oracle on the value the model derives to reach the field; non-trivial = class MustAccept or MustReject"
 	rep.Assume("the login toast is a constant in the library (sendLoginForm is unexported): Toast-slot vectors drive the failing-login path with hostile user names / passwords")
 	rep.Assume("form structure is compared with the page the same emitter builds from benign strings; differences between that page and the spec's skeleton are drift (template edited), except the set of hidden fields")
 	rep.Assume("a URL is script-bearing when a WHATWG-URL browser would resolve its scheme to javascript, vbscript or data (leading C0/space stripped, tab/LF/CR removed, case-insensitive)")
@@ -1365,6 +1467,7 @@ func TestC14(t *testing.T) {
 	var mu sync.Mutex
 	pathCount := map[string]int{}
 	nsCount := map[string]int{} // cases of the other lexical forms, by form / class (from the vectors, not from what was observed)
+	atCount := map[string]int{} // cases of the other attribute forms, by form / class / value that arrives (from the vectors)
 	parallel(len(vecs), func(i int) {
 		v := vecs[i]
 		if v.Part == "form" {
@@ -1408,11 +1511,17 @@ func TestC14(t *testing.T) {
 			nsCount[v.Ns+"/"+v.Class]++
 			mu.Unlock()
 		}
+		if !c14SingleAttr(v) {
+			n = 1 // the attribute-form dimension: one document per case and run (the seed picks prefix, foreign namespace, place of the declaration, attribute order around, value)
+			mu.Lock()
+			atCount[v.At+"/"+v.Class+"/"+v.Arrive]++
+			mu.Unlock()
+		}
 		for r := 0; r < n; r++ {
 			rng := newRand(fmt.Sprintf("%s/%d", k, r))
 			d := c14BuildMeta(v, rng, atomic.AddInt64(&metaN, 1))
 			if d.Doc == "" {
-				rep.Break("no document for vector %s (lexical form %q unknown to the harness)", k, v.Ns)
+				rep.Break("no document for vector %s (lexical form %q / attribute form %q unknown to the harness)", k, v.Ns, v.At)
 				return
 			}
 			for _, o := range c14ObserveMeta(shared, v, d, thorough()) {
@@ -1468,9 +1577,12 @@ func TestC14(t *testing.T) {
 	// with it on (spec/HtmlForms_C14dev.cfg) and must have produced a counterexample to RejectsHostile
 	// and one with ForeignNamespaceUnchecked on (spec/HtmlForms_C14devns.cfg; only the other lexical forms are
 	// enumerated there, the base cases only in HtmlForms_C14dev.cfg: the form in the counterexample tells them apart)
-	refuted, refutedNs := false, ""
+	// and one with ChecksFirstAttribute on (spec/HtmlForms_C14devattr.cfg; only the other attribute forms are enumerated
+	// there and nowhere else among the deviation configurations: the attribute form in the counterexample tells it apart)
+	refuted, refutedNs, refutedAt := false, "", ""
 	cex, _ := filepath.Glob(filepath.Join(workDir(), "tlc_violation_*.txt"))
 	nsRe := regexp.MustCompile(`ns \|-> "(\w+)"`)
+	atRe := regexp.MustCompile(`\bat \|-> "(\w+)"`)
 	for _, f := range cex {
 		b, err := os.ReadFile(f)
 		if err != nil || !strings.Contains(string(b), "Invariant RejectsHostile is violated") {
@@ -1478,6 +1590,10 @@ func TestC14(t *testing.T) {
 		}
 		forms := nsRe.FindAllStringSubmatch(string(b), -1)
 		if len(forms) == 0 {
+			continue
+		}
+		if ats := atRe.FindAllStringSubmatch(string(b), -1); len(ats) > 0 && ats[len(ats)-1][1] != "single" {
+			refutedAt = ats[len(ats)-1][1]
 			continue
 		}
 		switch form := forms[len(forms)-1][1]; form {
@@ -1496,6 +1612,31 @@ func TestC14(t *testing.T) {
 		rep.Break("TLC did not refute RejectsHostile under the deviation ForeignNamespaceUnchecked (no counterexample with an element outside the metadata namespace in the work directory): the lexical-form dimension of the model is vacuous")
 	} else {
 		rep.Note("model self-test: with ForeignNamespaceUnchecked on (HtmlForms_C14devns.cfg) TLC refutes RejectsHostile (element written in form %q)", refutedNs)
+	}
+	if refutedAt == "" {
+		rep.Break("TLC did not refute RejectsHostile under the deviation ChecksFirstAttribute (no counterexample with a second like-named attribute in the work directory): the attribute-form dimension of the model is vacuous")
+	} else {
+		rep.Note("model self-test: with ChecksFirstAttribute on (HtmlForms_C14devattr.cfg) TLC refutes RejectsHostile (attribute written in form %q)", refutedAt)
+	}
+	rep.Extra["c14_attribute_form_cases"] = atCount
+	{
+		// from the vectors: a hostile value must be derived to reach the field behind a harmless one, a harmless one
+		// behind a hostile one, and a foreign-namespace attribute on its own
+		laterHostile, laterHarmless, alone := 0, 0, 0
+		for k, n := range atCount {
+			f := strings.Split(k, "/")
+			switch {
+			case f[0] == "plainThenForeign" && f[1] == "MustReject" && f[2] == "case":
+				laterHostile += n
+			case f[0] == "foreignThenPlain" && f[2] == "harmless":
+				laterHarmless += n
+			case f[0] == "foreignOnly" && f[1] == "MustReject" && f[2] == "case":
+				alone += n
+			}
+		}
+		if laterHostile == 0 || laterHarmless == 0 || alone == 0 {
+			rep.Break("vacuous: the vectors hold %d MustReject cases with the hostile attribute behind a harmless one, %d cases with the harmless one behind, %d MustReject cases with a foreign-namespace attribute only", laterHostile, laterHarmless, alone)
+		}
 	}
 	rep.Extra["c14_lexical_form_cases"] = nsCount
 	{
